@@ -9,6 +9,7 @@ From SV Require Import Names NamesFacts ListFacts Rep Fresh Complex Atomic RepIn
 From SV Require Import VInv CopyOk.
 
 From SV Require Closed Listing VInv VIso CpsGen ComposeFresh.
+From SV Require Import DeepcopyFrame DeepcopyContents FiltCopyFrame.
 
 Theorem C09_copy_is_fresh :
   forall hp src uid hp' r' x, copy_new hp src uid = (hp', r', x) ->
@@ -128,3 +129,21 @@ Theorem C09_filtration_copy_contents :
      f_addedAtIndex c s = f_addedAtIndex f s /\ forall t, In t (faces (f_rep c) s) <-> In t (faces (f_rep f) s)).
 Proof. exact FiltCopyContents.f_copy_contents. Qed.
 Print Assumptions C09_filtration_copy_contents.
+
+(* copy.deepcopy: the result owns every one of its dictionaries under the new uid, so (by
+   C09_different_owners_share_nothing) it shares none with its source; nothing older is written *)
+Theorem C09_deepcopy_is_fresh :
+  forall hp r uid hp' r', deepcopy_rep hp r uid = (hp', r') ->
+  owned r' /\ r_uid r' = uid /\ forall h, fst h <> uid -> heap_get hp' h = heap_get hp h.
+Proof.
+  intros hp r uid hp' r' H. destruct (deepcopy_owned _ _ _ _ _ H) as [O U].
+  split; [exact O|]. split; [exact U|]. exact (deepcopy_writes_only_new_cells _ _ _ _ _ H).
+Qed.
+Print Assumptions C09_deepcopy_is_fresh.
+
+(* Filtration.copy(): likewise, whatever its outcome *)
+Theorem C09_filtration_copy_is_fresh :
+  forall hp f uid orders hp' c x, f_copy hp f uid orders = (hp', c, x) ->
+  owned (f_rep c) /\ r_uid (f_rep c) = uid /\ forall h, fst h <> uid -> heap_get hp' h = heap_get hp h.
+Proof. exact f_copy_fresh. Qed.
+Print Assumptions C09_filtration_copy_is_fresh.
